@@ -55,8 +55,12 @@ def run(tier: str, seed: int) -> int:
                 if exact:
                     els = [corner(kind, 0, 0)] + els + [corner(kind, 8, 8)]
                 other = geom.make_array("point", [geom.El([[[[100 - i, 50 + (i * 7) % 5]]]]) for i in range(len(els))])
+                # every third exact frame in float32 on a half-grid at 2^22: coordinates exact, but lo + hi of a bounding box is not
+                # representable in float32 (the centre cell must come out of double-precision arithmetic)
+                f32 = exact and f % 3 == 1 and not any(geom.has_special(e) for e in els)
+                shape = geom.make_array(kind, els, geom.Affine(0.5, 2.0 ** 22, 0.5, 2.0 ** 22, name="half@2^22"), "float32") if f32 else geom.make_array(kind, els)
                 df = sp.GeoDataFrame({"id": np.arange(1, len(els) + 1), "other": other, "txt": [f"t{i}" for i in range(len(els))],
-                                      "shape": geom.make_array(kind, els)}).set_geometry("shape")
+                                      "shape": shape}).set_geometry("shape")
                 tb = df.geometry.array.total_bounds
                 for inparts in ([1, 3] if quick else [1, 2, 3]):
                     mode = rng.choice(["plain", "filtered", "sorted", "touched-filtered", "repacked", "repacked-filtered"])
